@@ -4,6 +4,7 @@
 //!   exit-table                 T-exec rows of `DiagnosticSeverityFilter::allows` and of the exit logic
 //!   exit-run CASES.json DIR    run the real `output_result` (hook) on synthetic diagnostics
 //!   diag WORKSPACE             reference diagnostics of the main-workspace files through the public API
+//!   fileids WORKSPACE          file ids of the workspace files as the tools' loaders assign them
 //!   order CASES.json           real `get_best_analysis_order` on generated dependency graphs
 //!   batch CASES.json           real `update_files_by_uri`: ids handed to the pipelines, in order
 //!   conc WORKSPACE THREADS R   multi-threaded vs sequential diagnostics / semantic info on one analysis
@@ -19,6 +20,7 @@ fn main() {
         "exit-table" => exit::table(),
         "exit-run" => exit::run(&args[1], &args[2]),
         "diag" => ws::diag(&args[1]),
+        "fileids" => ws::fileids(&args[1]),
         "order" => order::order(&args[1]),
         "batch" => order::batch(&args[1]),
         "conc" => conc::conc(&args[1], args[2].parse().unwrap_or(8), args[3].parse().unwrap_or(1)),
